@@ -22,6 +22,9 @@ CHECKS = {
  "C07": dict(cat="exploration", sec="4 (C07)", technique="exhaustive operator x type x type matrix, cast/unary matrix, templated typed edits with known codes, and an invariant walker over the compiler's resolved trees for generated programs",
    text="All 2704 operator/type/type cells and 195 cast/unary cells are compiled: documented cells must be accepted, every mixed-type or wrong-class cell rejected with E550/E551/E552; 20 kinds of typed edits over random type pairs must be rejected with their E5xx/E333 code; in every accepted program the recorded types on both sides of each operator, comparison, initialisation, argument and return are identical and each operator is applied to its documented class.",
    note="Cells the documentation does not settle are executed but not asserted. The walker trusts the types recorded by the compiler in resolved::Expression."),
+ "C08": dict(cat="exploration", sec="4 (C08)", technique="call-heavy generated programs compared with the aliasing-aware reference interpreter; 26 templated illegal mutations/copies over 11 types next to their legal pointer-based twins; fixed control programs",
+   text="Programs whose functions take value, view, slice-pointer, pointer, pointer-to-struct and pointer-to-pointer parameters and write through reference chains are run and their complete visible state compared with the interpreter (caller variables change only where `&` was written); every illegal mutation or whole-aggregate copy shape must be rejected with E530-E533/E513.",
+   note="Trusted: interpreter's model of views (read-only aliases) and pointers. Recorded typer defects restrict which places are assigned (see DESIGN.md)."),
  "C09": dict(cat="exploration", sec="4 (C09)", technique="combinatorial + random generation of literals (type x value class x spelling x context), executed and compared with a documentation-derived spec function; exhaustive char byte sweep; lint attribution by source line",
    text="Integer literals of every integer type at and around every width boundary, in every spelling and in eight syntactic contexts, all 256 char values in three spellings, random byte strings in mixed escape spellings with adjacent-literal concatenation, and 56 malformed forms are compiled; representable values must be accepted without L1142 and print exactly their value, unrepresentable ones must raise L1142 on their line, malformed ones must be rejected with their documented code.",
    note="Trusted: the spec function in harness/src/c09.rs (value-based range rule). Printed values of out-of-range literals are not asserted."),
